@@ -79,6 +79,8 @@ class Builder:
         bc, how, val = p
         if how == "Mach":
             return lib.pb.BCPoint(bc, Mach=val)
+        if how == "V":                       # val is a quantity spec or a bare number
+            return lib.pb.BCPoint(bc, V=self.q(val))
         return lib.pb.BCPoint(bc, V=getattr(lib.pb.Unit, how)(val))
 
     def ammo(self, i):
